@@ -96,6 +96,17 @@ def data_of(seed, shape):
     return x
 
 
+def plant_special(x, seed):
+    """the hash is that of the source's float32 BIT PATTERNS: non-finite samples, signed zeros and denormals included (an
+    IEEE SEG-Y or a NumPy array may hold any of them; what the codec makes of them is not this property's business)"""
+    g = np.random.RandomState(seed ^ 0x5bd1e995)
+    flat = x.reshape(-1)
+    specials = np.array([np.nan, np.inf, -np.inf, -0.0, 1e-42, -1e-45], dtype=np.float32)
+    pos = g.choice(flat.size, size=min(flat.size, len(specials)), replace=False)
+    flat[pos] = specials[:len(pos)]
+    return x
+
+
 # ------------------------------------------------------------------ running one conversion
 D = scratch_dir()
 
@@ -188,6 +199,8 @@ def run_case(case, keep=False):
     """one conversion: oracle now, correspondence queued.  Returns the stored hash (hex) or None"""
     shape = tuple(case['shape'])
     data = data_of(case['seed'], shape)
+    if case.get('special'):
+        data = plant_special(data, case['seed'])
     if case.get('perturb'):
         pos, = [tuple(case['perturb'])]
         old = data[pos]
@@ -329,6 +342,11 @@ def cases_3d():
         i0, x0 = rng.randrange(1, 4), rng.randrange(1, 4)
         i1, x1 = rng.randrange(i0 + 2, n_il + 1), rng.randrange(x0 + 2, n_xl + 1)
         out.append(dict(route='segy', shape=[n_il, n_xl, n_s], bpv=bpv, bs=list(bs), seed=rng.randrange(2 ** 31), window=[i0, i1, x0, x1]))
+    # sources holding NaN, +-Inf, -0.0 and denormals (IEEE SEG-Y through both readers, NumPy arrays)
+    for j in range(3 if quick else 12):
+        bpv, bs = LAYOUTS_3D[(5 * j + 1) % 6]
+        shape = [rng.randrange(4, 10), rng.randrange(4, 10), rng.randrange(5, 12)]
+        out.append(dict(route=('numpy', 'segy', 'segy_rio')[j % 3], shape=shape, bpv=bpv, bs=list(bs), seed=rng.randrange(2 ** 31), special=1))
     # irregular (unstructured) SEG-Y: complete grids must satisfy the oracle; grids with absent traces are only recorded
     for j in range(4 if quick else 16):
         bpv, bs = LAYOUTS_3D[(2 * j) % 6]
@@ -352,6 +370,8 @@ def cases_2d():
             shape = [A1[(k * 5 + j * 3 + li) % len(A1)], A2[(k * 3 + j) % len(A2)]]
             k += 1
             out.append(dict(route='2d', shape=shape, bpv=bpv, bs=list(bs), seed=rng.randrange(2 ** 31), fmt=(1 if k % 6 == 0 else 5)))
+    for j in range(1 if quick else 4):
+        out.append(dict(route='2d', shape=[rng.randrange(5, 40), rng.randrange(5, 30)], bpv=8, bs=[1, 16, -1], seed=rng.randrange(2 ** 31), special=1))
     # the D3 witnesses
     for nt in (5, 16, 17, 21, 32, 33):
         out.append(dict(route='2d', shape=[nt, 40], bpv=4, bs=[1, 16, -1], seed=rng.randrange(2 ** 31)))
